@@ -418,6 +418,18 @@ extern void    print_int_vec(const char *what, int n, const int *vec);
 extern void    slu_PrintInt10(const char *name, int len, const int *x);
 extern void    check_perm(const char *what, int n, const int *perm);
 
+#ifdef SLU_VERIF
+/* Verification hooks (conformance checking against the TLA+ specification):
+   one event per state change, emitted only when a test harness installs a sink. */
+extern void slu_vhook(const char *event, const char *fmt, ...);
+extern void slu_vhook_mem(const char *event, const GlobalLU_t *Glu, const char *fmt, ...);
+#define SLU_VHOOK(...)     slu_vhook(__VA_ARGS__)
+#define SLU_VHOOK_MEM(...) slu_vhook_mem(__VA_ARGS__)
+#else
+#define SLU_VHOOK(...)
+#define SLU_VHOOK_MEM(...)
+#endif
+
 #ifdef __cplusplus
   }
 #endif
